@@ -18,6 +18,12 @@ CLAIMED = {
         "property-based testing (proptest) against an exact bisection reference; stateful histories on the live pair",
         "DESIGN.md §4 C03",
     ),
+    "C04": (
+        "Four generated-input searches: (a) StableSwap::swap_to / helpers::compute_swap through the hook over amp x reserves up to 2^110 (imbalance 2^30, all six directions) x offers: exact D* (bisection, 1024-bit, pool's own base units) must not fall, there-and-back with zero fees must not profit, return+fees == curve output with floor fee split; (b) the mint function: exact D* per LP must not fall; (c) compute_amp_factor vs the linear-interpolation model on/inside/after ramps; (d) histories on a live trio (factory-created, native and cw20 assets): solvency, exact D* per LP per operation at the amp of the executing block, only offer/ask reserves move, there-and-back, ramp acceptance in both directions against the three documented bounds, stored ramp parameters equal the model, the pool's simulation equals the hooked curve at the model's effective amp. Exploration. The bounded rounding losses of the truncated Newton iterations are listed known findings with a magnitude bound in their signature (<= 2 base units per reserve and operation); anything larger is a violation.",
+        "The hooked curve is used as the measuring instrument for the live pool's effective amp; the reference D* shares no code with the contract. Reference floor of 1 unit of D allowed.",
+        "property-based testing against an exact bisection reference and a linear ramp model; stateful histories on the live trio",
+        "DESIGN.md §4 C04",
+    ),
     "C02": (
         "Generated-input search (proptest, 16 deterministic shards) over the whole documented domain [1,2^128)^3 x valid fee triples x decimals, judged against an independent exact 1024-bit reference: gross floor, fee floors, strict bound, totality inside the 128-bit domain, there-and-back with the case's fees and with zero fees, gross monotone in the offer. Exploration, not proof: millions of cases per quick run, hundreds of millions thorough, with boundary constants and extreme-ratio shapes weighted in.",
         "Trusts refmath.rs (bnum integers, self-tested at start-up) and that commands::swap / queries::query_simulation call the hooked compute_swap (cross-checked by C14). A panic is an abort.",
